@@ -238,8 +238,8 @@ theorem AttrsClean.right {names : List String} {a b : List AttrE} (h : AttrsClea
   fun x hx => h x (List.mem_append_right _ hx)
 
 /-- the three debug attributes of a new node are invisible: the node is new, so none of them can conflict -/
-theorem sim_debugNode (la va ma : String) (hd1 : la ≠ va) (hd2 : la ≠ ma) (hd3 : va ≠ ma) (x y z : Val)
-    {kD kP : Nat → Prog SRest Unit} (hk : ∀ n, Sim [la, va, ma] (kD n) (kP n)) :
+theorem sim_debugNode {ρ : Type} [RestRel ρ] (la va ma : String) (hd1 : la ≠ va) (hd2 : la ≠ ma) (hd3 : va ≠ ma) (x y z : Val)
+    {kD kP : Nat → Prog ρ Unit} (hk : ∀ n, Sim [la, va, ma] (kD n) (kP n)) :
     Sim [la, va, ma]
       (gopP .addNode >>= fun n => addDebugNodeAttr n va x >>= fun _ => addDebugNodeAttr n la y >>= fun _ =>
         addDebugNodeAttr n ma z >>= fun _ => kD n)
@@ -249,20 +249,20 @@ theorem sim_debugNode (la va ma : String) (hd1 : la ≠ va) (hd2 : la ≠ ma) (h
   rw [run_bind, run_bind]
   have hlen := rel_length hg
   -- the new node on both sides
-  have hD0 : run (gopP .addNode : Prog SRest Nat) sD = .ok sD.graph.nodes.length { sD with graph := sD.graph.addGraphNode.1 } := rfl
-  have hP0 : run (gopP .addNode : Prog SRest Nat) sP = .ok sP.graph.nodes.length { sP with graph := sP.graph.addGraphNode.1 } := rfl
+  have hD0 : run (gopP .addNode : Prog ρ Nat) sD = .ok sD.graph.nodes.length { sD with graph := sD.graph.addGraphNode.1 } := rfl
+  have hP0 : run (gopP .addNode : Prog ρ Nat) sP = .ok sP.graph.nodes.length { sP with graph := sP.graph.addGraphNode.1 } := rfl
   rw [hD0, hP0]
   simp only
   let n := sD.graph.nodes.length
-  let s1 : MSt SRest := { sD with graph := sD.graph.addGraphNode.1 }
+  let s1 : MSt ρ := { sD with graph := sD.graph.addGraphNode.1 }
   have hn1 : s1.graph.node? n = some {} := by
     simp [s1, n, CGraph.addGraphNode, CGraph.node?]
   obtain ⟨g2, hrun2, hstrip2, hnode2⟩ := run_addDebug [la, va, ma] s1 n va x {} hn1 rfl (by simp)
-  let s2 : MSt SRest := { s1 with graph := g2 }
+  let s2 : MSt ρ := { s1 with graph := g2 }
   obtain ⟨g3, hrun3, hstrip3, hnode3⟩ := run_addDebug [la, va, ma] s2 n la y _ hnode2
     (by have : (la == va) = false := by simp [hd1]
         simp [List.lookup, this]) (by simp)
-  let s3 : MSt SRest := { s2 with graph := g3 }
+  let s3 : MSt ρ := { s2 with graph := g3 }
   obtain ⟨g4, hrun4, hstrip4, hnode4⟩ := run_addDebug [la, va, ma] s3 n ma z _ hnode3
     (by have h1 : (ma == va) = false := by simp [Ne.symm hd3]
         have h2 : (ma == la) = false := by simp [Ne.symm hd2]
